@@ -417,9 +417,29 @@ func runC15(ctx *core.Ctx) {
 		ctx.Run("cmd:"+tl.name, nCmd, func(cs *core.Case) {
 			r := cs.R
 			in := env.HostileInput(r)
-			switch r.Intn(10) {
+			if cs.Index < 8 {
+				// payloads beyond any round buffer size: 1 MiB + 1, 2 MiB, 5 MiB, 17 MiB (tail marker must arrive)
+				size := []int{1<<20 + 1, 2 << 20, 5<<20 + 3, 1<<20 - 1, 17 << 20, 1 << 20, 3 << 20, 9 << 20}[cs.Index]
+				if ctx.Quick() && size > 6<<20 {
+					size = 1<<20 + 17 + cs.Index
+				}
+				var b strings.Builder
+				b.Grow(size + 4096)
+				for b.Len() < size {
+					if cs.Index%2 == 0 {
+						b.WriteString(env.HostileInput(r))
+					} else {
+						b.WriteString("<p>paragraph <b>bold</b> &amp; text</p>\n")
+					}
+				}
+				b.WriteString("<p>zqtailmarker</p>")
+				in = b.String()
+			}
+			switch r.Intn(10) * boolToInt(cs.Index >= 8) {
 			case 0:
-				in = gen.Pick(r, []string{"", " ", "\n", "x\n", "<p>hello</p>\n", "\n\n", "\r", "\r\n", " \r\n\t", "\r\n\r\n", "\f", "\x0b", "\u00a0", "\r\nx"})
+				if cs.Index >= 8 {
+					in = gen.Pick(r, []string{"", " ", "\n", "x\n", "<p>hello</p>\n", "\n\n", "\r", "\r\n", " \r\n\t", "\r\n\r\n", "\f", "\x0b", "\u00a0", "\r\nx"})
+				}
 			case 1:
 				var b strings.Builder
 				for b.Len() < 70000 {
@@ -479,4 +499,11 @@ func runC15(ctx *core.Ctx) {
 	ctx.Floor("blank_inputs", 200)
 	ctx.Floor("held_results_rechecked", 1000)
 	_ = oracle.Tokens
+}
+
+func boolToInt(b bool) int {
+	if b {
+		return 1
+	}
+	return 0
 }
